@@ -407,6 +407,27 @@ func oracles(r *vx.Run, in nsx.Input, ast *nsx.Script, ob runObs) {
 	if ob.Stage != "done" || ast == nil {
 		return
 	}
+	// C02 (lock sets, theorems C02_locks_*): what the Commander write-locks is involvedSources and read-locks is
+	// involvedAccounts; every account a posting debits must be write-locked, every account it touches read-locked
+	{
+		src, inv := map[string]bool{}, map[string]bool{}
+		for _, a := range ob.Sources {
+			src[a] = true
+		}
+		for _, a := range ob.Involved {
+			inv[a] = true
+		}
+		for _, p := range ob.Postings {
+			if p.Source != "world" && (*big.Int)(p.Amount).Sign() != 0 && !src[p.Source] {
+				r.FailP("C02", "lockset:debited-account-not-write-locked", in, fmt.Sprintf("posting %+v, involvedSources %v", p, ob.Sources), size)
+				break
+			}
+			if (p.Source != "world" && !inv[p.Source]) || (p.Destination != "world" && !inv[p.Destination]) {
+				r.FailP("C02", "lockset:touched-account-not-read-locked", in, fmt.Sprintf("posting %+v, involvedAccounts %v", p, ob.Involved), size)
+				break
+			}
+		}
+	}
 	// C03 (b): no negative posting
 	for _, p := range ob.Postings {
 		if (*big.Int)(p.Amount).Sign() < 0 {
